@@ -304,7 +304,7 @@ func init() {
 	registry["C03"] = func(c *Ctx) *orch.Outcome {
 		return runModelCheck(c, modelSpec{Level: "exploration",
 			Rule: "one evaluation = one well-signed batch (1..6 transactions, transfers and conversions mixed, amounts at balance-1 / balance / balance+1, several draws on one balance, self-credits, conversion then spending the converted asset, zero and 2^63-1 amounts) considered by the real daemon on top of an adaptively forged ledger; after the block every balance must equal the two-pass reference rule's prediction (executed completely or not at all), the recorded status must be the predicted one, and no balance column may be negative. Distinct non-trivial = (kind, verdict code, era) outcome classes observed.",
-			Profiles: func(c *Ctx) []modelParams { return featProfiles(c, 3, 64, 3, "c03", "c16", "c13") },
+			Profiles: func(c *Ctx) []modelParams { return featProfiles(c, 4, 64, 3, "c03", "c16", "c13") },
 			NonTrivial: func(rs []*orch.Result) (int64, map[string]interface{}) {
 				k := orch.UnionDistinct(rs, "outcome_classes")
 				ex := sumCounters(rs, "batch_outcomes_checked")
@@ -315,7 +315,7 @@ func init() {
 	registry["C07"] = func(c *Ctx) *orch.Outcome {
 		return runModelCheck(c, modelSpec{Level: "exploration",
 			Rule: "one evaluation = one conversion (all asset pairs of the era, amounts 1..balance incl. tiny ones, rates drifting every block) submitted at h; the reference rule holds it until the first later block with rates r and credits floor(in×S/D) with the rates of r (S=min(spot,avg), D=max(spot,avg) from PIP-10); compared with balances, recorded status height and recorded to_amount; additionally out×D_spot ≤ in×S_spot is asserted on the recorded amounts. Distinct non-trivial = conversions whose recorded amount was compared, of which those priced by an average ≠ spot are counted separately.",
-			Profiles: func(c *Ctx) []modelParams { return featProfiles(c, 3, 64, 2, "c07", "gaps", "avg-unavailable", "ungraded-snapshot", "c16") },
+			Profiles: func(c *Ctx) []modelParams { return featProfiles(c, 4, 64, 2, "c07", "gaps", "avg-unavailable", "ungraded-snapshot", "c16") },
 			NonTrivial: func(rs []*orch.Result) (int64, map[string]interface{}) {
 				ex := sumCounters(rs, "conversion_amounts_checked", "value_bounds_checked", "conversions_priced_by_average", "events_C07",
 					"unrated_blocks_with_conversions_waiting", "unrated_snapshot_blocks_from_v202_with_conversions_waiting", "waiting_batches_checked_in_unrated_blocks")
@@ -327,7 +327,7 @@ func init() {
 			Rule: "one evaluation = one block with an OPR set (0..65 records: valid, wrong version for the height, duplicates, outliers, unparsable payout addresses, one short of / exactly the winner count) and from 2.0 an SPR set (holders, non-holders, broken signatures, wrong versions) and a factoid block (burns and near-misses: two inputs, FCT outputs, foreign EC address, non-zero EC amount, after 2.0); the PEG / pFCT delta of every address must equal the payouts the grader library assigns to the winning records naming it (top-100 filter on the previous state) plus its valid burns, and each paid record must have exactly one coinbase row of that amount. Distinct non-trivial = (reward/burn event kind, era) pairs + coinbase rows compared.",
 			Assume: []string{"staking records whose staker id is claimed by a foreign key (recorded finding) run only in the tagged scenario"},
 			Profiles: func(c *Ctx) []modelParams {
-				ps := featProfiles(c, 3, 64, 3, "c11")
+				ps := featProfiles(c, 4, 64, 3, "c11")
 				ps = append(ps, modelParams{Seed: c.Seed*1000 + 600, Features: []string{"quiet", "spr-impostor"}})
 				ps = append(ps, modelParams{Seed: c.Seed*1000 + 601, Features: []string{"quiet", "oob-pre202"}})
 				return ps
@@ -346,7 +346,7 @@ func init() {
 		return runModelCheck(c, modelSpec{Level: "exploration",
 			Rule: "one evaluation = one block whose OPR and SPR winners agree, differ inside the band, sit one unit inside/outside its edge, or (from 2.0.2) differ beyond it for some assets; the pn_rate rows of the block must be exactly the rule's (winner[0] of each grade, band of the era, PEG by pricing phase from the previous state's supplies), a block without winners must have no rows and execute no held conversion, and rows of earlier heights must never change. Distinct non-trivial = rated blocks compared, per era.",
 			Assume: []string{"OPR outside the SPR band before 2.0.2 (recorded finding: the block returns early) runs only in the tagged scenario"},
-			Profiles: func(c *Ctx) []modelParams { return featProfiles(c, 3, 64, 3, "c12", "gaps", "ungraded-snapshot") },
+			Profiles: func(c *Ctx) []modelParams { return featProfiles(c, 4, 64, 3, "c12", "gaps", "ungraded-snapshot") },
 			NonTrivial: func(rs []*orch.Result) (int64, map[string]interface{}) {
 				ex := sumCounters(rs, "rated_blocks_compared", "rate_blocks_checked",
 					"unrated_blocks_with_conversions_waiting", "unrated_snapshot_blocks_from_v202_with_conversions_waiting", "waiting_batches_checked_in_unrated_blocks")
@@ -358,7 +358,7 @@ func init() {
 		return runModelCheck(c, modelSpec{Level: "exploration",
 			Rule: "one evaluation = one conversion from a funded address into a destination of every class (pFCT, PEG, small-cap assets, ordinary assets), submitted at activation-3 … activation+2 of every activation; the admission rule of the statement decides executed / rejected(-2,-3,-4,-5) / dropped, compared with balances and recorded status. Distinct non-trivial = (verdict code, era) classes observed for conversions.",
 			Profiles: func(c *Ctx) []modelParams {
-				ps := featProfiles(c, 3, 64, 0, "c13", "avg-unavailable", "c16")
+				ps := featProfiles(c, 4, 64, 0, "c13", "avg-unavailable", "c16")
 				// the one-way activation of the small assets and PEG placed before 2.0 (a configuration, not mainnet's)
 				n := 1
 				if c.Thorough() {
@@ -455,7 +455,7 @@ func init() {
 	registry["C04"] = func(c *Ctx) *orch.Outcome {
 		return runModelCheck(c, modelSpec{Level: "exploration",
 			Rule: "one evaluation = one block applied by the real daemon; per asset, the observed change of total supply must equal the sum of the block's issuance/destruction events (mining, staking, holder and developer payouts, FCT burns, conversions, bank yield/refund, burn-address transfers, one-time adjustments) computed by the reference rules, and every address/asset balance must equal the prediction (so nobody outside the block's events changes; a transfer's debit equals its credits). Distinct non-trivial = (event kind, era) pairs observed.",
-			Profiles: func(c *Ctx) []modelParams { return stdProfiles(c, 3, 64, "busy", "c03", "c13", "c16") },
+			Profiles: func(c *Ctx) []modelParams { return stdProfiles(c, 4, 64, "busy", "c03", "c13", "c16") },
 			NonTrivial: func(rs []*orch.Result) (int64, map[string]interface{}) {
 				k := orch.UnionDistinct(rs, "event_kinds")
 				return int64(len(k)), map[string]interface{}{"event_kind_era_pairs": k, "supply_deltas_checked": orch.SumCounter(rs, "supply_deltas_checked")}
